@@ -7986,6 +7986,7 @@ class Block_Label_Do_Construct(BlockBase):  # pylint: disable=invalid-name
             End_Do,
             reader,
             match_labels=True,
+            match_names=True,  # C821
             enable_do_label_construct_hook=True,
         )
 
@@ -8666,6 +8667,14 @@ class Continue_Stmt(StmtBase, STRINGBase):  # R848
 
     def get_end_label(self):
         return self.item.label
+
+    def get_end_name(self):
+        """
+        :returns: None as a CONTINUE statement that terminates a labelled \
+            DO construct cannot carry a construct name.
+        :rtype: NoneType
+        """
+        return None
 
 
 class Stop_Stmt(StmtBase, WORDClsBase):  # R849
